@@ -109,11 +109,11 @@ static struct fdinfo g_fds[MAXFD];
 
 enum kind {
   K_OPENR, K_OPENW, K_OPENDIR, K_READ, K_WRITE, K_READDIR, K_SHORT_READ, K_SHORT_WRITE,
-  K_EINTR_READ, K_EINTR_WRITE, K_EINTR_OPEN, K_CLOCKJUMP, K_CRASH, K_NKINDS
+  K_EINTR_READ, K_EINTR_WRITE, K_EINTR_OPEN, K_CLOCKJUMP, K_CRASH, K_RENAME, K_NKINDS
 };
 static const char *kind_names[] = {"openr", "openw", "opendir", "read", "write", "readdir",
                                    "short_read", "short_write", "eintr_read", "eintr_write",
-                                   "eintr_open", "clockjump", "crash"};
+                                   "eintr_open", "clockjump", "crash", "rename"};
 struct rule {
   int kind;
   char sel[RELMAX];
@@ -155,7 +155,7 @@ static const struct errname errnames[] = {
   {"ENOSPC", ENOSPC}, {"EPIPE", EPIPE}, {"EINTR", EINTR}, {"EISDIR", EISDIR}, {"ENOTDIR", ENOTDIR},
   {"EPERM", EPERM}, {"EDQUOT", EDQUOT}, {"EFBIG", EFBIG}, {"ENFILE", ENFILE}, {"ENOMEM", ENOMEM},
   {"EBADF", EBADF}, {"ELOOP", ELOOP}, {"ENAMETOOLONG", ENAMETOOLONG}, {"EAGAIN", EAGAIN},
-  {"ETXTBSY", ETXTBSY}, {"EBUSY", EBUSY}, {0, 0}};
+  {"ETXTBSY", ETXTBSY}, {"EBUSY", EBUSY}, {"EXDEV", EXDEV}, {0, 0}};
 static int errno_from_name(const char *s) {
   for (int i = 0; errnames[i].n; i++) if (!strcmp(errnames[i].n, s)) return errnames[i].v;
   return atoi(s);
@@ -736,8 +736,37 @@ int closedir(DIR *d) {
     return (int)r;                                                    \
   } while (0)
 
-int rename(const char *a, const char *b) { LOG_PATH_CALL("rename", AT_FDCWD, b, real_rename(a, b)); }
-int renameat(int ad, const char *a, int bd, const char *b) { LOG_PATH_CALL("rename", bd, b, real_renameat(ad, a, bd, b)); }
+/* rename onto an in-world destination: `rename:<dest>:n:errno` fails the n-th and later ones
+ * (an implementation that writes through a temporary file meets its write fault here) */
+static int do_rename(int ad, const char *a, int bd, const char *b) {
+  vsim_init();
+  char rel[RELMAX];
+  if (!g_world || !world_rel(bd, b, rel)) return real_renameat(ad, a, bd, b);
+  pthread_mutex_lock(&g_lock);
+  event_begin("rename", rel);
+  int ri = -1;
+  for (int i = 0; i < g_nrules; i++) {
+    struct rule *r = &g_rules[i];
+    if (r->kind != K_RENAME || !sel_match(r, rel)) continue;
+    r->hits++;
+    if (ri < 0 && r->hits >= r->when) { r->fired = 1; ri = i; }
+  }
+  if (ri >= 0) {
+    int e = (int)g_rules[ri].arg;
+    trace_line("rename", rel, 0, -1, e, ri);
+    pthread_mutex_unlock(&g_lock);
+    errno = e;
+    return -1;
+  }
+  int r = real_renameat(ad, a, bd, b);
+  int e = errno;
+  trace_line("rename", rel, 0, r, e, -1);
+  pthread_mutex_unlock(&g_lock);
+  errno = e;
+  return r;
+}
+int rename(const char *a, const char *b) { return do_rename(AT_FDCWD, a, AT_FDCWD, b); }
+int renameat(int ad, const char *a, int bd, const char *b) { return do_rename(ad, a, bd, b); }
 int unlink(const char *a) { LOG_PATH_CALL("unlink", AT_FDCWD, a, real_unlink(a)); }
 int unlinkat(int d, const char *a, int fl) { LOG_PATH_CALL("unlink", d, a, real_unlinkat(d, a, fl)); }
 int truncate64(const char *a, off_t l) { LOG_PATH_CALL("truncate", AT_FDCWD, a, real_truncate64(a, l)); }
